@@ -119,7 +119,7 @@ def generate(rng, tier):
     for _ in range(4):
         configs.append({
             "warm": rng.choice(["none", "none", "optimal", "feasible", "infeasible", "wrong_length", "fractional", "negative_entry",
-                                "negative_entry"]),
+                                "negative_entry", "zeros", "ones", "lp_rounded"]),
             "heuristics": rng.random() < 0.7,
             "lns_iterations": rng.choice([0, 0, 1, 2, 4, 6]),
             "lns_destroy_frac": rng.choice([0.1, 0.3, 0.6, 1.0]),
@@ -229,6 +229,12 @@ def warm_start_for(case, cfg, ref):
         return [0.5] * n
     if w == "infeasible":
         return [float(u + 1) for u in case["ub"]]
+    if w == "zeros":  # often infeasible for covering rows, and then better than any feasible point when minimising
+        return [0.0] * n
+    if w == "ones":  # often infeasible for packing rows, and then better than any feasible point when maximising
+        return [1.0] * n
+    if w == "lp_rounded":  # every variable at the bound its cost prefers: right length, usually infeasible, never worse than the optimum
+        return [float(case["ub"][j]) if ((case["c"][j] < 0) == case["minimize"]) else 0.0 for j in range(n)]
     pts = ref.get("points") or []
     if not pts:
         return [0.0] * n
